@@ -247,11 +247,26 @@ func c07Scenarios(tier string) []*core.Scenario {
 			if strings.HasPrefix(st, "X EQU") {
 				after = "\tDB X\n"
 			}
-			src := "pre:\n" + sentinelLine(0) + stmtLine(stmt) + after + "post:\n" + sentinelLine(1) + "\tDW post\n"
-			base := "pre:\n" + sentinelLine(0) + "post:\n" + sentinelLine(1) + "\tDW post\n"
+			// the name may be DECLARED (EXTERN before or after the use, GLOBAL) without being defined: a flat binary has no
+			// relocations, so a reference to it still cannot be assembled; the declaration line is in the baseline too
+			decl := c.Str("declared", "", "EXTERN_before", "EXTERN_after", "GLOBAL_before")
+			declBefore, declAfter := "", ""
+			if decl != "" {
+				if u != undefSyms[0] || strings.HasPrefix(st, "GLOBAL") {
+					return nil // declarations are explored with the plain name only
+				}
+				kw := strings.SplitN(decl, "_", 2)
+				if kw[1] == "before" {
+					declBefore = "\t" + kw[0] + " " + u + "\n"
+				} else {
+					declAfter = "\t" + kw[0] + " " + u + "\n"
+				}
+			}
+			src := declBefore + "pre:\n" + sentinelLine(0) + stmtLine(stmt) + after + "post:\n" + sentinelLine(1) + "\tDW post\n" + declAfter
+			base := declBefore + "pre:\n" + sentinelLine(0) + "post:\n" + sentinelLine(1) + "\tDW post\n" + declAfter
 			return &core.Case{
-				Key:  stmt,
-				Feat: feat("stmt", st, "sym", u),
+				Key:  stmt + map[bool]string{true: " (" + decl + ")", false: ""}[decl != ""],
+				Feat: feat("stmt", st, "sym", u, "declared", decl),
 				Srcs: []string{src, base},
 				Judge: func(rs []*core.Result) core.Verdict {
 					v := core.Verdict{Nontrivial: true, NTKey: stmt}
